@@ -415,9 +415,29 @@ func findingKey(r *run, at int, why string) string {
 			near = append(near, tr)
 		}
 	}
+	// zone-level classes first (one key per zone: the other zones keep full checking)
+	suffix := ""
+	if cls == "no-return" {
+		suffix = ":hang"
+	}
 	for _, tr := range near {
 		if (tr.After-tr.Before)%3600 != 0 {
-			return "zone-shift-not-multiple-of-1h:" + r.Zone
+			return "zone-shift-not-multiple-of-1h:" + r.Zone + suffix
+		}
+	}
+	for _, tr := range near {
+		if !tr.onTheHour() {
+			return "zone-transition-not-on-the-hour:" + r.Zone + suffix
+		}
+	}
+	for _, tr := range near {
+		if tr.After-tr.Before >= 86400 || tr.Before-tr.After >= 86400 {
+			return "zone-skips-a-day:" + r.Zone + suffix
+		}
+	}
+	for _, tr := range near {
+		if tr.atMidnight() {
+			return "zone-transition-at-midnight:" + r.Zone + suffix
 		}
 	}
 	if len(near) == 0 {
@@ -561,22 +581,25 @@ func TestCheck(t *testing.T) {
 	nRuns := ev.Pick(900, 22000)
 	var runs []*run
 	nextCalls, malformed, skippedHang := 0, 0, 0
-	hungZones := map[string]int{}
+	hungAt := map[string][]int64{}
 	for i := 0; i < nRuns; i++ {
 		r := g.genRun(thorough, dst)
-		if hangs >= maxHangs || hungZones[r.Zone] >= 2 {
-			if hungZones[r.Zone] >= 2 || hangs >= maxHangs {
-				// the watchdog abandons a spinning goroutine per hang: stop walking in zones that already hung twice
-				if r.X.Form == "fields" && !strings.HasPrefix(r.Mode, "malformed") {
-					r.Steps = 0
-					skippedHang++
-				}
+		// the watchdog abandons a spinning goroutine per hang: after two hangs around the same instant of a zone,
+		// further walks starting within 45 days of it are not executed (parse only)
+		near := 0
+		for _, at := range hungAt[r.Zone] {
+			if d := r.Start.Unix() - at; d > -45*86400 && d < 45*86400 {
+				near++
 			}
+		}
+		if near >= 2 || hangs >= maxHangs {
+			r.Steps = 0
+			skippedHang++
 		}
 		r.execute()
 		for _, n := range r.Nexts {
 			if n.Hang {
-				hungZones[r.Zone]++
+				hungAt[r.Zone] = append(hungAt[r.Zone], r.Start.Unix())
 			}
 		}
 		runs = append(runs, r)
@@ -599,13 +622,14 @@ func TestCheck(t *testing.T) {
 
 	// 4. TLC judges everything
 	all := append([]*run{}, runs...)
-	if thorough {
-		all = append(all, termRuns...)
-	} else {
-		// quick tier: every enumerated term was replayed; TLC re-judges a stride sample of them plus every one that differed
-		stride := len(termRuns)/6000 + 1
+	sampled := map[*run]bool{}
+	{
+		// every enumerated term was replayed and compared with the enumeration's expectation; TLC (TraceCron)
+		// re-judges a stride sample of the replays plus every one that differed
+		stride := len(termRuns)/ev.Pick(6000, 60000) + 1
 		for i := int(ev.Seed()) % stride; i < len(termRuns); i += stride {
 			all = append(all, termRuns[i])
+			sampled[termRuns[i]] = true
 		}
 		all = append(all, termMismatch...)
 	}
@@ -620,6 +644,15 @@ func TestCheck(t *testing.T) {
 	rejected := map[*run]bool{}
 	calendarMismatch := 0
 	sort.Slice(rej, func(i, j int) bool { return rej[i].run.Text+rej[i].run.Zone < rej[j].run.Text+rej[j].run.Zone })
+	perKey := map[string]int{}
+	defer func() {
+		var ks []string
+		for k, n := range perKey {
+			ks = append(ks, fmt.Sprintf("%s x%d", k, n))
+		}
+		sort.Strings(ks)
+		fmt.Printf("rejected runs per finding key: %v\n", ks)
+	}()
 	for _, v := range rej {
 		rejected[v.run] = true
 		if strings.Contains(v.why, "SPEC-CALENDAR-MISMATCH") {
@@ -630,9 +663,14 @@ func TestCheck(t *testing.T) {
 			continue
 		}
 		key := findingKey(v.run, v.at, v.why)
+		perKey[key]++
 		rp := v.run.replay()
 		rp["rejected_at_event"] = v.at
-		e.Violation(key, fmt.Sprintf("%s | %q options=%v zone=%s", v.why, v.run.Text, v.run.X.Places, v.run.Zone), rp)
+		what := fmt.Sprintf("%s | %q options=%v descriptors=%v zone=%s", v.why, v.run.Text, v.run.X.Places, v.run.X.Desc, v.run.Zone)
+		if v.at >= 1 && v.at <= len(v.run.Nexts) {
+			what += fmt.Sprintf(" | Next(%s) = %s", v.run.Nexts[v.at-1].TText, v.run.Nexts[v.at-1].RText)
+		}
+		e.Violation(key, what, rp)
 	}
 	// the two TLC passes must agree on the enumerated terms
 	for _, r := range termMismatch {
@@ -641,16 +679,14 @@ func TestCheck(t *testing.T) {
 			break
 		}
 	}
-	if thorough {
-		mis := map[*run]bool{}
-		for _, r := range termMismatch {
-			mis[r] = true
-		}
-		for _, r := range termRuns {
-			if rejected[r] && !mis[r] {
-				e.Inconclusive("trace validation rejects a term the enumeration agrees with: " + r.Text)
-				break
-			}
+	mis := map[*run]bool{}
+	for _, r := range termMismatch {
+		mis[r] = true
+	}
+	for r := range sampled {
+		if rejected[r] && !mis[r] {
+			e.Inconclusive("trace validation rejects a term the enumeration agrees with: " + r.Text)
+			break
 		}
 	}
 
